@@ -320,6 +320,12 @@ fn open_index(config: &crate::config::Config) -> Result<(bool, Index)> {
         }
     }
 
+    // Invalidate the metadata before touching the index, so that an interrupted
+    // rebuild can never be mistaken for an up-to-date index.
+    if config.meta_path.is_file() {
+        fs::remove_file(&config.meta_path)?;
+    }
+
     if config.index_path.is_dir() {
         log::info!("removing index: {}", config.index_path.display());
         #[cfg(feature = "verif")]
